@@ -23,7 +23,7 @@ ASSUMPTIONS = [
     "sorted-dict and cursor cut-point models in this file (DESIGN.md Appendix B5)",
     "structural walk reads BTree.root / node.elts / node.children as an optional witness; the deciding oracle is the model at the public API",
 ]
-REQUIRED = ["mon.drill_full_shared_root", "mon.drill_delete_all", "mon.drill_cursor_on_falsy_key", "mon.delete_exact_refused", "mon.step", "mon.tree_equals_model", "mon.structure_walk", "mon.frozen_refuses", "mon.frozen_fingerprint", "mon.cursor_op", "mon.exhaustive_orders"]
+REQUIRED = ["mon.drill_released_generations", "mon.drill_full_shared_root", "mon.drill_delete_all", "mon.drill_cursor_on_falsy_key", "mon.delete_exact_refused", "mon.step", "mon.tree_equals_model", "mon.structure_walk", "mon.frozen_refuses", "mon.frozen_fingerprint", "mon.cursor_op", "mon.exhaustive_orders"]
 BUDGET = {"quick": 40.0, "thorough": 420.0}
 
 
@@ -568,6 +568,40 @@ def drills(ctx, rng):
         del lv.model[k]
         if not ok(lv, case, tag):
             return
+    # (d) the life cycle of a versioned zone: each generation is a clone of the newest frozen tree, edited a little and frozen;
+    # only the newest two generations stay referenced, so older trees are RELEASED while their nodes live on in the newer ones
+    # and the interpreter may hand a released tree's memory to the next clone
+    ctx.count("mon.drill_released_generations")
+    case = {"kind": "drill", "drill": "released-generations", "t": t, "tree": kind}
+    gen = Live(mk(), {}, t, kind)
+    for k in range(0, 6 * (2 * t), 3):
+        put(gen, k, 0)
+    gen.tree.make_immutable()
+    gen.frozen = True
+    kept = [gen]
+    for g in range(1, rng.randint(4, 9)):
+        newest = kept[-1]
+        nxt = Live(None, dict(newest.model), t, kind)
+        nxt.tree = mk(original=newest.tree)  # allocated after the release below, i.e. possibly where a released tree was
+        for _ in range(rng.randint(1, 6)):
+            k = rng.randrange(0, 6 * (2 * t) + 3)
+            if k in nxt.model and rng.random() < 0.5:
+                nxt.tree.pop(k) if kind == "dict" else nxt.tree.remove(k)
+                del nxt.model[k]
+            else:
+                put(nxt, k, g)
+            for j, lv in enumerate(kept):
+                if not compare(ctx, lv, case, tag + ":older-generations-released", j):
+                    return
+        if not ok(nxt, case, tag):
+            return
+        nxt.tree.make_immutable()
+        nxt.frozen = True
+        kept.append(nxt)
+        ctx.seen(("released-generations", kind, t, min(g, 4)))
+        while len(kept) > 2:
+            del kept[0]  # the only reference: the tree object goes, its nodes stay shared
+        del newest, lv
     # (c) a cursor standing on a key that is falsy (0, the empty name) when the tree changes under it
     ctx.count("mon.drill_cursor_on_falsy_key")
     case = {"kind": "drill", "drill": "cursor-on-falsy-key", "t": t, "tree": kind}
